@@ -15,6 +15,9 @@ Generator (3): pointer shapes: every operation kind x every shape of "path" x ev
 enumerated in full on two fixed documents and sampled on generated ones, mostly in place — the
 error paths of an operation that has already touched the document (move removes its source first).
 
+Generator (4): index magnitude: array reference tokens j + k * 2^w (w = 32, 63, 64, 65, 128) aliasing
+an existing index / the length, in path and from of every operation kind, at any depth of the pointer.
+
 Direct oracle: the RFC 6902 evaluator below, written from the RFC in this file (it shares nothing
 with json-c or the Coq model), plus: patch document unchanged, copy source unchanged, no node
 shared between the result and the patch document / the source / two places of the result, no
@@ -622,6 +625,41 @@ def gen_value(rng):
     return gen_doc(rng, rng.choice([1, 2]), 3)
 
 
+# Index magnitude: an array reference token is a decimal number of ANY size.  j + k * 2^w (w = 32:
+# index_in_parent is a uint32_t; 63 / 64: the size_t / strtoull range; 65, 128: beyond) must not be
+# taken for j, it is simply an index that does not exist.
+WIDTHS = [32, 32, 63, 64, 64, 64, 65, 128]
+
+
+def alias_number(rng, j):
+    w = rng.choice(WIDTHS)
+    return j + rng.choice([1, 1, 1, 2, 3, 10]) * (1 << w)
+
+
+def alias_index(rng, p):
+    """p with one all-digit reference token j replaced by j + k * 2^w; None when it has none"""
+    toks = p.split(b"/")
+    cand = [i for i, t in enumerate(toks) if i > 0 and INDEX.fullmatch(t)]
+    if not cand:
+        return None
+    i = rng.choice(cand)
+    toks[i] = b"%d" % alias_number(rng, int(toks[i]))
+    return b"/".join(toks)
+
+
+def alias_op(rng, o):
+    """the operation with an aliased index in its path or from; None when there is no index"""
+    ms = list(o[1])
+    names = [i for i, (k, v) in enumerate(ms) if k in (b"path", b"from") and isinstance(v, bytes)]
+    rng.shuffle(names)
+    for i in names:
+        q = alias_index(rng, ms[i][1])
+        if q is not None:
+            ms[i] = (ms[i][0], q)
+            return ("o", ms)
+    return None
+
+
 def gen_wellformed(rng, nops):
     """(target, [ops], kind): paths follow the document as RFC 6902 evaluation changes it"""
     doc = gen_doc(rng, rng.choice([1, 2, 2, 3]), rng.choice([2, 3, 4]))
@@ -697,7 +735,13 @@ def gen_wellformed(rng, nops):
         # an operation that is meant to apply is re-drawn (a few times) when it happens to fail,
         # so that long patches are really carried through
         for attempt in range(4):
-            o = one_op(want_fail)
+            o = one_op(want_fail and rng.random() < 0.6)
+            if want_fail or rng.random() < 0.03:
+                # an operation that would apply, with one array index replaced by an alias of huge magnitude
+                a = alias_op(rng, o)
+                if a is not None:
+                    o = a
+                    kinds.add("index-magnitude")
             try:
                 apply_op(doc, o)
                 applies = True
@@ -792,7 +836,11 @@ def gen_malformed(rng):
 # sampled on generated documents.
 SHAPES = [b"", b"/a", b"/b", b"/b/0", b"/b/-", b"/b/2", b"/0", b"/1", b"/-", b"/nope", b"/a/x", b"/",          # pointers
           b"x", b"a", b"0", b"-", b"a/b", b"b/0", b"~", b" ", b" /a",                                          # no leading '/'
-          b"/~", b"/a~", b"/~2", b"/b/~0", b"/b/01", b"//", b"/b/"]                                            # bad escape / index / empty token
+          b"/~", b"/a~", b"/~2", b"/b/~0", b"/b/01", b"//", b"/b/",                                            # bad escape / index / empty token
+          # index magnitude: j + k * 2^w for existing j, j = length, and below a huge index
+          b"/b/4294967296", b"/b/4294967297", b"/b/9223372036854775808", b"/b/18446744073709551615",
+          b"/b/18446744073709551616", b"/b/18446744073709551617", b"/b/18446744073709551618", b"/b/36893488147419103233",
+          b"/b/340282366920938463463374607431768211456", b"/18446744073709551616", b"/18446744073709551617/0", b"/4294967297/0"]
 SHAPE_DOCS = [("o", [(b"a", ("i", 1)), (b"b", [("i", 1), ("i", 2)])]), [("i", 1), [("i", 2)], None]]
 
 
@@ -853,6 +901,8 @@ def gen_shapes_random(rng):
         o = mk_op(opn, shape())
     else:
         o = mk_op(opn, shape(), value=gen_value(rng))
+    if rng.random() < 0.25:
+        o = alias_op(rng, o) or o
     tail = [mk_op(b"test", b"", value=cur)] if rng.random() < 0.3 else []
     return doc, prefix + [o] + tail
 
@@ -902,6 +952,16 @@ WITNESSES = [
     ({"a": 1}, [{"op": "remove", "path": ""}, {"op": "test", "path": "", "value": None}]),                         # null_document_root (known)
     ({"a": 1}, [{"op": "replace", "path": "", "value": None}, {"op": "replace", "path": "", "value": 1}]),
     ({"a": 1}, [{"op": "remove", "path": ""}, {"op": "add", "path": "", "value": {"b": 2}}]),
+    # index magnitude (2^64 + j, 2^32 + j): no such element, for every operation kind
+    ({"a": [10, 20, 30]}, [{"op": "add", "path": "/a/18446744073709551616", "value": 1}]),
+    ({"a": [10, 20, 30]}, [{"op": "add", "path": "/a/18446744073709551619", "value": 1}]),
+    ({"a": [10, 20, 30]}, [{"op": "remove", "path": "/a/18446744073709551617"}]),
+    ({"a": [10, 20, 30]}, [{"op": "replace", "path": "/a/4294967297", "value": None}]),
+    ({"a": [10, 20, 30]}, [{"op": "test", "path": "/a/18446744073709551616", "value": 10}]),
+    ({"a": [10, [20]]}, [{"op": "test", "path": "/a/18446744073709551617/0", "value": 20}]),
+    ({"a": [10, 20, 30], "b": {}}, [{"op": "add", "path": "/a/-", "value": 40}, {"op": "move", "from": "/a/18446744073709551616", "path": "/b/d"}]),
+    ({"a": [10, 20, 30], "b": {}}, [{"op": "copy", "from": "/a/36893488147419103233", "path": "/b/d"}]),
+    ({"a": [10, 20, 30], "b": {}}, [{"op": "move", "from": "/b", "path": "/a/18446744073709551617"}]),
     # RFC 6902 appendix A
     ({"foo": "bar"}, [{"op": "add", "path": "/baz", "value": "qux"}]),
     ({"foo": ["bar", "baz"]}, [{"op": "add", "path": "/foo/1", "value": "qux"}]),
